@@ -541,6 +541,7 @@ def tie_lines(f, sq):
 
 ING = ["flour", "sugar", "salt", "water", "olive oil", "eggs", "butter", "crème fraîche", "rice", "milk"]
 CW = ["pan", "large bowl", "oven", "whisk"]
+INTER_NAMES = ["dough", "mixture", "sauce", "starter"]
 TM = ["rest", "bake", "simmer gently"]
 WORDS = ["Add", "the", "and", "mix", "well", "until", "smooth", "then", "pour", "into", "stir", "Serve", "café"]
 UNKNOWN_UNITS = ["pinch", "cloves", "sprigs", "Cup", "handful", "ML"]
@@ -560,7 +561,8 @@ def plain_word_unit(u):
 class RGen:
     def __init__(self, rng, units):
         self.r = rng
-        self.count = {"blank_spelling": 0, "blank_spelling_locked": 0, "timer_blank_spelling": 0}
+        self.count = {"blank_spelling": 0, "blank_spelling_locked": 0, "timer_blank_spelling": 0,
+                      "intermediate_refs": 0, "intermediate_refs_with_quantity": 0, "intermediate_refs_linear": 0}
         keys = []
         for u in units.units:
             for k in u["names"] + u["symbols"] + u["aliases"]:
@@ -606,10 +608,28 @@ class RGen:
 
     def ingredient(self, ext, st):
         r = self.r
-        name = r.choice(ING)
-        ref = ext and name in st["defined"] and r.random() < 0.5
-        st["defined"].add(name)
-        head = "@&" if ref else "@" + (r.choice(["", "", "", "?", "-"]) if ext else "")
+        inter = None
+        if ext and r.random() < 0.15:
+            # INTERMEDIATE_PREPARATIONS: a reference to an earlier step / section, all four target forms
+            # (~k relative step, k numbered step, =~k relative section, =k numbered section); its own
+            # quantity is an ingredient quantity like any other: Linear unless locked or text
+            forms = []
+            if st["steps_in_section"] > 0:
+                forms += ["(~%d)" % r.randint(1, st["steps_in_section"]), "(%d)" % r.randint(1, st["steps_in_section"])]
+            if st["done_sections"] > 0:
+                forms += ["(=~%d)" % r.randint(1, st["done_sections"]), "(=%d)" % r.randint(1, st["done_sections"])]
+            if forms:
+                inter = r.choice(forms)
+        if inter is not None:
+            name = r.choice(INTER_NAMES)
+            ref = True
+            head = "@&" + inter
+            self.count["intermediate_refs"] += 1
+        else:
+            name = r.choice(ING)
+            ref = ext and name in st["defined"] and r.random() < 0.5
+            st["defined"].add(name)
+            head = "@&" if ref else "@" + (r.choice(["", "", "", "?", "-"]) if ext else "")
         if r.random() < 0.15:
             st["linear"].append("-")
             return head + name + "{}"
@@ -626,6 +646,9 @@ class RGen:
             else:
                 body += r.choice(["%", " % ", "%"]) + unit
         st["linear"].append("F" if (is_text or lock) else "L")
+        if inter is not None:
+            self.count["intermediate_refs_with_quantity"] += 1
+            self.count["intermediate_refs_linear"] += 0 if (is_text or lock) else 1
         note = "(chopped)" if (not ref and r.random() < 0.1) else ""   # a note on a reference is an error
         return head + name + "{" + body + "}" + note
 
@@ -657,7 +680,7 @@ class RGen:
         """(ext flag a|n, source text, expectation)"""
         r = self.r
         ext = r.random() < 0.7
-        st = {"linear": [], "defined": set()}
+        st = {"linear": [], "defined": set(), "steps_in_section": 0, "done_sections": 0}
         lines = []
         servings = None
         k = r.random()
@@ -688,6 +711,7 @@ class RGen:
         for si in range(r.randint(1, 2)):
             if si > 0 or r.random() < 0.2:
                 lines.append("== " + r.choice(["Dough", "Filling", "To serve"]) + " ==")
+            st["steps_in_section"] = 0
             for _ in range(r.randint(1, 3)):
                 parts = []
                 for _ in range(r.randint(1, 6)):
@@ -703,6 +727,8 @@ class RGen:
                     else:
                         parts.append(self.inline())
                 lines.append(" ".join(parts) + r.choice(["", ".", ","]))
+                st["steps_in_section"] += 1
+            st["done_sections"] += 1
         text = "\n\n".join(lines) + "\n"
         return ("a" if ext else "n"), text, {"linear": "".join(st["linear"]), "servings": servings, "parsed": True}
 
@@ -995,6 +1021,7 @@ def run(rep, tier, seed):
         "fraction_numbers_in_results": stats["fractions_in_results"],
         "rule": "seeded recipes (70%% all extensions, 30%% none) with ingredients (no quantity / number / decimal / fraction / "
                 "mixed / range / text; every key of every bundled unit, unknown units, no unit; `=` locks; references; "
+                "intermediate-preparation references (~k, k, =~k, =k) with their own quantities; "
                 "modifiers; notes), cookware, timers, inline quantities, servings as number / `a|b` / list / words under "
                 "servings|serves|yield in front matter or `>>` lines; 12%% relabelled Linear<->Fixed after parsing, 10%% "
                 "set_servings (empty, zero, lists); each scaled by %s, one random factor, two servings counts of %s "
@@ -1012,6 +1039,9 @@ def run(rep, tier, seed):
         "generated_quantities_in_blank_separated_spelling": GEN_COUNT.get("blank_spelling", 0),
         "generated_locked_quantities_in_blank_separated_spelling": GEN_COUNT.get("blank_spelling_locked", 0),
         "generated_timers_in_blank_separated_spelling": GEN_COUNT.get("timer_blank_spelling", 0),
+        "generated_intermediate_references": GEN_COUNT.get("intermediate_refs", 0),
+        "generated_intermediate_references_with_quantity": GEN_COUNT.get("intermediate_refs_with_quantity", 0),
+        "generated_intermediate_references_expected_linear": GEN_COUNT.get("intermediate_refs_linear", 0),
         "results_crossing_the_day_boundary": stats["day_crossings"],
         "samples": samples,
     })
